@@ -47,8 +47,13 @@ def options():
     })
 
 
+# 'pre': None, or the case mode (vmfgen.case_variant) of a copy of the map - every string spelt in another letter case - that is
+# built, exported and parsed in the same process BEFORE the judged round trip (an earlier, unrelated load of similar content).
+PRE = st.sampled_from([None, None, None, 0, 1, 2])
+
+
 def _case(map_strategy):
-    return st.fixed_dictionaries({'map': map_strategy, 'opts': options()})
+    return st.fixed_dictionaries({'map': map_strategy, 'opts': options(), 'pre': PRE})
 
 
 # ---- per-family generator configurations ---------------------------------------------------------------------------
@@ -157,6 +162,10 @@ def execute(desc, ctx):
         build_p = desc['map']['preserve_ids']
         p = desc['map'].get('parse_preserve_ids', build_p)
         stats = vmfgen.desc_stats(desc['map'])
+        if desc.get('pre') is not None:
+            other = vmfgen.build_vmf(vmfgen.case_transformed(desc['map'], desc['pre']))
+            VMF.parse(Keyvalues.parse(other.export(inc_version=False)), preserve_ids=p)
+            ctx.label('pre_parse_other_case')
         m = vmfgen.build_vmf(desc['map'])
         for k, n in stats.items():
             if n and k not in ('max_power', 'labels'):
@@ -416,21 +425,23 @@ def exec_second_gen(desc, ctx):
 
 SUBCHECKS = [
     Sub('keyvalues', exec_keyvalues, strategy=_strat(cfg_keyvalues, min_ents=1), quick=800, thorough=20000, floor=300,
-        must_hit=('hidden_ents', 'comments', 'logical_pos', 'nasty_keys', 'nasty_values', 'nodeid', 'preserve_ids', 'renumber_ids')),
+        must_hit=('hidden_ents', 'comments', 'logical_pos', 'nasty_keys', 'nasty_values', 'nodeid', 'preserve_ids', 'renumber_ids',
+                  'case_variant:key', 'case_variant:val', 'pre_parse_other_case')),
     Sub('outputs', exec_outputs, strategy=_strat(cfg_outputs, min_ents=1), quick=800, thorough=20000, floor=300,
-        must_hit=('outputs', 'out_comma', 'out_esc_sep', 'inst_out', 'inst_in')),
+        must_hit=('outputs', 'out_comma', 'out_esc_sep', 'inst_out', 'inst_in', 'case_variant:io', 'case_variant:val')),
     Sub('fixups', exec_fixups, strategy=_strat(cfg_fixups, min_ents=1), quick=600, thorough=14000, floor=200,
-        must_hit=('fixups', 'nasty_fixup_vars')),
+        must_hit=('fixups', 'nasty_fixup_vars', 'case_variant:fixvar')),
     Sub('membership', exec_membership, strategy=_strat(cfg_membership), quick=600, thorough=10000, floor=200,
         must_hit=('ent_groups', 'ent_vis', 'solid_groups', 'groups', 'visgroups', 'hidden_ents', 'hidden_solids', 'opt_minimal',
                   'ids:cross_kind_clash', 'ids:cross_kind_clash_with_members', 'ids:built_preserving')),
     Sub('brushes', exec_brushes, strategy=_strat(cfg_brushes), quick=500, thorough=10000, floor=150,
-        must_hit=('prisms', 'raw_solids', 'hidden_solids', 'world_brushes', 'brush_ents', 'strata_points', 'nasty_mats')),
+        must_hit=('prisms', 'raw_solids', 'hidden_solids', 'world_brushes', 'brush_ents', 'strata_points', 'nasty_mats',
+                  'case_variant:mat', 'pre_parse_other_case')),
     Sub('displacements', exec_disps, strategy=_strat(cfg_disps), quick=400, thorough=4000, floor=80,
         must_hit=('disps', 'multiblend_disps', 'disp_power_1', 'disp_power_2', 'opt_no_multiblend',
                   'mb:only_w', 'mb:only_x', 'mb:one_vertex', 'mb:all_equal', 'mb:dense', 'ma:only_w')),
     Sub('meta', exec_meta, strategy=_strat(cfg_meta), quick=600, thorough=10000, floor=250,
-        must_hit=('visgroups', 'nested_visgroups', 'cameras', 'cordons', 'viewports', 'inst_vis', 'opt_minimal')),
+        must_hit=('visgroups', 'nested_visgroups', 'cameras', 'cordons', 'viewports', 'inst_vis', 'opt_minimal', 'case_variant:name')),
     Sub('whole', exec_whole, strategy=_strat(cfg_whole), quick=300, thorough=5000, floor=60,
         must_hit=('brush_ents', 'disps', 'outputs', 'fixups', 'visgroups', 'groups', 'opt_minimal', 'opt_no_multiblend',
                   'ids:cross_kind_clash')),
